@@ -195,11 +195,11 @@ Fixpoint ps_digs (l : bytes) (acc : Z) : Z :=
   end.
 Definition ps_atoi (l : bytes) : Z :=
   let l := ps_skip_sp l in
-  let '(neg, l) := match l with
-                   | 45 :: tl => (true, tl)
-                   | 43 :: tl => (false, tl)
-                   | _ => (false, l)
-                   end in
+  let neg := match l with b :: _ => b =? 45 | [] => false end in
+  let l := match l with
+           | b :: tl => if (b =? 45) || (b =? 43) then tl else l
+           | [] => l
+           end in
   let v := ps_digs l 0 in
   let v := if neg then - v else v in
   (* strtol saturates at LONG_MIN/LONG_MAX, atoi keeps the low 32 bits, the code stores it in
